@@ -217,6 +217,11 @@ func Load(opt Options) (*Engine, error) {
 				switch d[1] {
 				case "prop":
 					h.Props = append(h.Props, strings.Fields(arg)...)
+				case "propthorough":
+					// properties this harness also serves in the thorough tier only
+					if opt.Tier == "thorough" {
+						h.Props = append(h.Props, strings.Fields(arg)...)
+					}
 				case "sched":
 					h.SchedFirst = arg == "first"
 				case "init":
